@@ -85,27 +85,28 @@ type Sess struct {
 	Cov   *Cov
 	Rng   *Rng // only for monitor sampling, never for op choice
 
-	regs     map[int]*regEntry
-	open     int // queries held open by the harness
-	step     int
-	wseq     int
-	qcalls   int
-	lsn      ecs.Listener
-	rec      []RecEvent
-	recOn    bool
-	batchAff map[ecs.Entity]*MEnt // expected after-state of entities affected by the running batch op
-	tr       uint64
-	trOps    []uint64
-	targets  map[ecs.Entity]bool // every non-zero target ever used
-	RecAll   [][]RecEvent
-	gfs      map[int]*gfState
-	kept     *keptDump
-	stale    []ecs.CachedFilter // handles of filters that were unregistered
-	replica  map[ecs.Entity]*replicaEnt
-	Res      *ResModel
-	ResIDs   []ecs.ResID
-	ResKeys  []string
-	keep     []any
+	regs       map[int]*regEntry
+	open       int // queries held open by the harness
+	step       int
+	wseq       int
+	qcalls     int
+	lsn        ecs.Listener
+	rec        []RecEvent
+	recOn      bool
+	batchAff   map[ecs.Entity]*MEnt // expected after-state of entities affected by the running batch op
+	tr         uint64
+	trOps      []uint64
+	targets    map[ecs.Entity]bool // every non-zero target ever used
+	RecAll     [][]RecEvent
+	gfs        map[int]*gfState
+	kept       *keptDump
+	stale      []ecs.CachedFilter // handles of filters that were unregistered
+	replica    map[ecs.Entity]*replicaEnt
+	resMappers map[string]resAcc // long-lived generic.Resource mappers (C20)
+	Res        *ResModel
+	ResIDs     []ecs.ResID
+	ResKeys    []string
+	keep       []any
 }
 
 // NewSess creates a world per cfg with all its types registered.
@@ -597,6 +598,18 @@ func (s *Sess) call(op *Op, out *Outcome) {
 		}
 		s.stale = append(s.stale, r.cached)
 		delete(s.regs, *op.Slot)
+	case "CacheReplace":
+		// unregister one filter and register another one back to back, with no cache lookup in between
+		r := s.regs[*op.Slot]
+		f := w.Cache().Unregister(&r.cached)
+		if !sameFilter(f, r.orig) {
+			s.fail("cache.unregister", "Unregister returned %v, not the original filter %v", f, r.orig)
+		}
+		s.stale = append(s.stale, r.cached)
+		delete(s.regs, *op.Slot)
+		nf := op.F.Build(s.IDs, entOf)
+		c := w.Cache().Register(nf)
+		s.regs[op.ID] = &regEntry{spec: op.F, orig: nf, cached: c}
 	case "CacheUnregisterStale":
 		w.Cache().Unregister(&s.stale[op.ID%len(s.stale)])
 	case "RegisterType":
@@ -894,7 +907,7 @@ func (s *Sess) apply(op *Op, out *Outcome) []ExpEvent {
 		s.Res.Present[op.ID] = s.keep[len(s.keep)-1]
 	case "ResRemove":
 		delete(s.Res.Present, op.ID)
-	case "ResRegister", "ResHas", "Get", "Has", "QueryRelation", "EntityAt", "Step":
+	case "ResRegister", "ResHas", "Get", "Has", "QueryRelation", "EntityAt", "Step", "CacheReplace":
 	default:
 		exp = s.applyExtra(op, out)
 	}
